@@ -148,6 +148,67 @@ pub fn parse_answer(a: &str) -> Option<Verdicts> {
 /// Run cases through compiler + driver and record, for property `prop` (c02|c05|c03), disagreements and unsat cases.
 pub fn judge(prop: &str, cases: &[Case], rep: &mut Report, describe: &dyn Fn(&Case) -> Vec<String>) {
     let obs = compile_cases(cases, rep);
+    judge_obs(prop, cases, obs, rep, describe, "");
+}
+
+/// The same cases (those without references to the shared base definitions), but all module defaults in ONE
+/// compilation: one module per (tagging default, EXTENSIBILITY IMPLIED) pair, named so that the modules are
+/// generated in two different orders. Every case must come out as in its own module's environment.
+pub fn judge_multi(prop: &str, cases: &[Case], rep: &mut Report, describe: &dyn Fn(&Case) -> Vec<String>) {
+    let keep: Vec<Case> = cases.iter().filter(|c| !c.asn(0).contains("Ref-")).cloned().collect();
+    for order in 0..2 {
+        let mut groups: std::collections::BTreeMap<(String, bool), Vec<usize>> = Default::default();
+        for (i, c) in keep.iter().enumerate() {
+            groups.entry((c.env.to_string(), c.implied)).or_default().push(i);
+        }
+        let keys: Vec<(String, bool)> = groups.keys().cloned().collect();
+        let n_groups = keys.len();
+        let mod_name = |g: usize| format!("M{}x{}-Mod", (b'a' + if order == 0 { g } else { n_groups - 1 - g } as u8) as char, g);
+        let per = 40;
+        let rounds = groups.values().map(|v| v.len().div_ceil(per)).max().unwrap_or(0);
+        let mut out: Vec<Option<Vec<String>>> = vec![None; keep.len()];
+        for r in 0..rounds {
+            let mut srcs = Vec::new();
+            let mut sel: Vec<(usize, Vec<usize>)> = Vec::new();
+            for (g, k) in keys.iter().enumerate() {
+                let idxs: Vec<usize> = groups[k].iter().skip(r * per).take(per).cloned().collect();
+                if idxs.is_empty() {
+                    continue;
+                }
+                srcs.push(format!("{} {}\n{}\nEND\n", mod_name(g), header(&k.0, k.1), idxs.iter().map(|i| keep[*i].asn(*i)).collect::<Vec<_>>().join("\n")));
+                sel.push((g, idxs));
+            }
+            match compile_rasn(&srcs) {
+                Outcome::Ok { generated, .. } => match proj::project(&generated) {
+                    Ok(mods) => {
+                        for (g, idxs) in &sel {
+                            let want = mod_name(*g).to_lowercase().replace('-', "_");
+                            let Some(m) = mods.iter().find(|m| m.name == want) else {
+                                rep.harness_errors.push(format!("module {want} missing from a multi-module compilation"));
+                                continue;
+                            };
+                            for i in idxs {
+                                rep.evaluations += 1;
+                                rep.count("multi-module-compilation");
+                                let name = top_name(*i);
+                                out[*i] = Some(m.items.iter().filter(|it| it.name.trim_start_matches("Anonymous").starts_with(&name)).filter_map(item_sx).collect());
+                            }
+                        }
+                    }
+                    Err(e) => rep.harness_errors.push(format!("projection failed: {e}")),
+                },
+                Outcome::Err(e) => {
+                    rep.count("multi-module:compile-err");
+                    rep.sample(json!({"compile_err": e}));
+                }
+                Outcome::Panic(p) => rep.harness_errors.push(format!("panic in a multi-module compilation: {p}")),
+            }
+        }
+        judge_obs(prop, &keep, out, rep, describe, if order == 0 { "compiled together with modules of the other tagging defaults (generated after them)" } else { "compiled together with modules of the other tagging defaults (generated before them)" });
+    }
+}
+
+fn judge_obs(prop: &str, cases: &[Case], obs: Vec<Option<Vec<String>>>, rep: &mut Report, describe: &dyn Fn(&Case) -> Vec<String>, setting: &str) {
     let mut reqs = Vec::new();
     let mut idx = Vec::new();
     for (i, o) in obs.iter().enumerate() {
@@ -174,7 +235,10 @@ pub fn judge(prop: &str, cases: &[Case], rep: &mut Report, describe: &dyn Fn(&Ca
             rep.count(&d);
         }
         rep.distinct.insert(c.asn(0) + c.env + if c.implied { "I" } else { "" });
-        let case_json = json!({"env": c.env, "implied": c.implied, "asn1": c.asn(i), "module": format!("Struct-Mod {}\n{}{}\nEND", header(c.env, c.implied), BASE_DEFS, c.asn(i)), "ty_sx": c.ty.sx(), "tag_sx": tag_sx(&c.tag)});
+        let mut case_json = json!({"env": c.env, "implied": c.implied, "asn1": c.asn(i), "module": format!("Struct-Mod {}\n{}{}\nEND", header(c.env, c.implied), BASE_DEFS, c.asn(i)), "ty_sx": c.ty.sx(), "tag_sx": tag_sx(&c.tag)});
+        if !setting.is_empty() {
+            case_json["setting"] = json!(setting);
+        }
         if k % 211 == 0 {
             rep.sample(json!({"env": c.env, "implied": c.implied, "asn1": c.asn(i), "answer": a}));
         }
